@@ -8,6 +8,9 @@ MODULE = "TraceAutomata"
 
 
 def generate(rng, tier, shard, nshards):
+    for M in aops.tlc_automata(shard, nshards, every=2 if tier == "quick" else 1):     # (C) the TLC-enumerated family
+        for fn in ("trim", "trim_vals"):
+            yield aops.event("wop", {"sr": "Sat3", "A": M, "sigma": ["a"], "L": 3, "fn": fn}, site=f"WFSA.{fn}", feat="tlc-family")
     n = 30 if tier == "quick" else 300
     L = 3 if tier == "quick" else 4
     sig = ["a", "b"]
@@ -72,7 +75,9 @@ def selftests(events, rng):
 
 
 def run(report, tier, seed):
-    standard_run(report, "C13", MODULE, tier, seed, selftests,
+    from common import automata_core
+    afam = automata_core(report, 2)
+    standard_run(report, "C13", MODULE, tier, seed, selftests, extra_env={"VERIF_AFAMILY": afam},
                  sample_keys=("op", "fname", "sr", "A", "posts", "site"),
                  rule=("acyclic automata over exact rationals (user Rat semiring and Float with Fractions; finite language, so "
                        "all strings up to the longest path are all strings) and cyclic deterministic ones: determinize, "
